@@ -37,6 +37,7 @@ def _execute(record, root):
         return core.Result.make(record, failures, stats, sig=None, nontrivial=False)
     names = record["batch"]
     chain = []
+    saddle_seen = set()
     for k, e in enumerate(out):
         c = e["op"]["cfg"]
         tag = f"solve {k} batch={names} {record['method']} conv={c['conv']} sp2={c['sp2']} eps={c['eps']} uhf={c['uhf']} backward={c.get('backward', 0)} forces={c.get('grad', 'autodiff')} excited_states_tol={c.get('exc')} start={e['start']}({e.get('from')})"
@@ -75,6 +76,24 @@ def _execute(record, root):
                 stats["probes"]["uhf_lower_broken_symmetry_state"] = stats["probes"].get("uhf_lower_broken_symmetry_state", 0) + 1
                 errsE.append(None)
                 continue
+            # committed known finding (DESIGN section 6 item 46): in a batch of several molecules the Pulay solver - which is
+            # also the reference path - can land a molecule on an UNSTABLE stationary point (gap < 2 eV, more than 1 eV above
+            # the solution every other path finds), depending on its batch mates
+            cls = {"site": "other"}
+            if len(names) > 1 and not any(b in ("h-", "o2-") for b in names):
+                # (batches with a full-shell atom are excluded from the match: that trigger was repaired by fix 238a43a and must
+                # stay repaired)
+                ref_on_saddle = ref["gap"][m] < 2.0 and own_gap >= 2.0 and e["Etot"][m] < ref["Etot"][m] - 1.0
+                own_on_saddle = c["conv"][0] == 2 and own_gap < 2.0 and ref["gap"][m] >= 2.0 and e["Etot"][m] > ref["Etot"][m] + 1.0
+                if ref_on_saddle or own_on_saddle:
+                    cls = {"site": "pulay-batch-unstable-stationary-point"}
+                    key = (e["geom"], m)
+                    if key not in saddle_seen:
+                        saddle_seen.add(key)
+                        which = "the reference solve (Pulay, cold start)" if ref_on_saddle else "this Pulay solve"
+                        failures.append(core.fail("pulay-lands-on-unstable-stationary-point", f"{tag}: molecule {m} ({names[m]}): {which} converged to a stationary point with gap {min(own_gap, ref['gap'][m]):.3f} eV, {abs(e['Etot'][m] - ref['Etot'][m]):.2f} eV above the solution of the other path (gap {max(own_gap, ref['gap'][m]):.2f} eV); both report converged", classify=cls))
+                    errsE.append(None)
+                    continue
             stats["solves_compared"] += 1
             dE = abs(e["Etot"][m] - ref["Etot"][m])
             dF = float(np.abs(np.array(e["force"][m]) - np.array(ref["force"][m])).max())
